@@ -98,6 +98,19 @@ impl Encoder<Frame> for FrameCodec {
     fn encode(&mut self, item: Frame, dst: &mut BytesMut) -> Result<(), Self::Error> {
         let data_len = item.data.len();
 
+        // The length field is 16 bits: refuse a payload it cannot describe instead of
+        // emitting a header that disagrees with the bytes that follow it.
+        if data_len > u16::MAX as usize {
+            return Err(io::Error::new(
+                io::ErrorKind::InvalidInput,
+                format!(
+                    "frame payload too large: {} bytes (max {})",
+                    data_len,
+                    u16::MAX
+                ),
+            ));
+        }
+
         // Reserve space: header + data
         dst.reserve(HEADER_OVERHEAD_SIZE + data_len);
 
